@@ -1,8 +1,8 @@
 #!/verif/.venv/bin/python
 # Replay of a solver counterexample against the unmodified code (no shims).
-# property=C01 kernel=vp label=vp:min_avg_amp
+# property=C01 kernel=finite label=finite:accepted_pulse_has_finite_samples
 import sys
 sys.path[:0] = ['/repo' + "/pulser-core", '/repo' + "/pulser-simulation", "/verif"]
 from symx.replay import replay
-sys.exit(replay(check='checks.c01', kernel='vp', shape={'amp': 'ramp', 'det': 'const', 'max_amp': True, 'max_det': True, 'minavg': True, 'grid': 7, 'n': 3},
-                assignment={'max_amp': '1/256', 'max_det': 10, 'min_avg_amp': '3/1024', 'amp.start': '1/256', 'amp.stop': '0/1', 'det.v': 10}, label='vp:min_avg_amp'))
+sys.exit(replay(check='checks.c01', kernel='finite', shape={'cls': 'ramp', 'dur': 1, 'as': 'amp'},
+                assignment={'start': '0/1', 'stop': '0/1', 'max_det': '0/1', 'max_amp': '0/1'}, label='finite:accepted_pulse_has_finite_samples'))
